@@ -260,7 +260,7 @@ def r03_5_shared(repo: Repo, rep: Report):
         c04.r04_2_refine_exact,
         c06.r06_1_zero_divisor, c06.r06_3_operator_table, c06.r06_4_wrapper_term_boundary, c06.r06_5_bool_closedness, c06.r06_6_byte_and_signextend,
         c11.r11_2_constraint_ownership, c11.r11_3_dump_writer_reader, c11.r11_4_refine,
-        c13.r13_2_mk_cond, c13.r13_3_sign_and_arity, c13.r13_5_branching,
+        c13.r13_1_selector_table, c13.r13_2_mk_cond, c13.r13_3_sign_and_arity, c13.r13_5_branching,
         c16.r16_1_core_recording, c16.r16_3_ids_equal_asserted, c16.r16_4_id_stability, c16.r16_5_scope,
         c18.r18_2_lookup, c18.r18_4_scoping, c18.r18_7_override_forwarding,
         c20.r20_1_fork_copies, c20.r20_2_inactive_paths,
